@@ -328,3 +328,9 @@ package buffer
 //@   requires b != nil
 //@   modifies b.memResponseBodyBytes
 //@   ensures sets_the_response_threshold_only: (m < 0 ==> result != nil && b.memResponseBodyBytes == old(b.memResponseBodyBytes)) && (m >= 0 ==> result == nil && b.memResponseBodyBytes == m)
+
+//@ func (*Buffer).Wrap
+//@   props C15 C20
+//@   requires b != nil
+//@   modifies b.next
+//@   ensures rebound: b.next == next && result == nil
